@@ -383,19 +383,19 @@ Definition pk1_from_cauchy_stmt3 : Prop :=
   forall p0 p1 p2 p3 p4 p5 p6 p7 p8 q0 q1 q2 q3 q4 q5 q6 q7 q8 q9 q10 q11 q12 q13 q14 q15 q16 q17 q18 q19 q20 q21 q22 q23 q24 q25 q26 q27 q28 q29 q30 q31 q32 q33 q34 q35 q36 q37 q38 q39 q40 q41 q42 q43 q44 q45 q46 q47 q48 q49 q50 q51 q52 q53 q54 q55 q56 q57 q58 q59 : R,
     is_jacobian 9 9 (fun p => f_pk1_from_cauchy3_l p [q0; q1; q2; q3; q4; q5; q6; q7; q8; q9; q10; q11; q12; q13; q14; q15; q16; q17; q18; q19; q20; q21; q22; q23; q24; q25; q26; q27; q28; q29; q30; q31; q32; q33; q34; q35; q36; q37; q38; q39; q40; q41; q42; q43; q44; q45; q46; q47; q48; q49; q50; q51; q52; q53; q54; q55; q56; q57; q58; q59]) (fun p => D_pk1_from_cauchy3_l p [q0; q1; q2; q3; q4; q5; q6; q7; q8; q9; q10; q11; q12; q13; q14; q15; q16; q17; q18; q19; q20; q21; q22; q23; q24; q25; q26; q27; q28; q29; q30; q31; q32; q33; q34; q35; q36; q37; q38; q39; q40; q41; q42; q43; q44; q45; q46; q47; q48; q49; q50; q51; q52; q53; q54; q55; q56; q57; q58; q59]) [p0; p1; p2; p3; p4; p5; p6; p7; p8].
 
-(* convertSecondPiolaKirchhoffStressDerivativeToFirstPiolaKirchoffStressDerivative(dS/dE, F, sigma(F)) is the Jacobian of F |-> P(F) = F.S(F), S(F) = S0 + X.E_GL(F), through the conversions of /repo (det F <> 0) *)
+(* convertSecondPiolaKirchhoffStressDerivativeToFirstPiolaKirchoffStressDerivative(dS/dE, F0, s0) is the Jacobian at F0 of F |-> F.S(F), S(F) = S(s0, F0) + X.(E_GL(F) - E_GL(F0)), S(s0, F0) = convertCauchyStressToSecondPiolaKirchhoffStress(s0, F0) (det F0 <> 0) *)
 Definition pk1_from_pk2_stmt1 : Prop :=
   forall p0 p1 p2 q0 q1 q2 q3 q4 q5 q6 q7 q8 q9 q10 q11 : R,
     nthR (f_tensor_det1 p0 p1 p2) 0 <> 0 ->
-    is_jacobian 3 3 (fun p => f_pk1_from_pk21_l p [q0; q1; q2; q3; q4; q5; q6; q7; q8; q9; q10; q11]) (fun p => D_pk1_from_pk21_l p [q0; q1; q2; q3; q4; q5; q6; q7; q8; q9; q10; q11]) [p0; p1; p2].
+    is_jacobian 3 3 (fun p => f_pk1_from_pk21_l p [q0; q1; q2; q3; q4; q5; q6; q7; q8; q9; q10; q11; p0; p1; p2]) (fun p => D_pk1_from_pk21_l p [q0; q1; q2; q3; q4; q5; q6; q7; q8; q9; q10; q11; p0; p1; p2]) [p0; p1; p2].
 Definition pk1_from_pk2_stmt2 : Prop :=
   forall p0 p1 p2 p3 p4 q0 q1 q2 q3 q4 q5 q6 q7 q8 q9 q10 q11 q12 q13 q14 q15 q16 q17 q18 q19 : R,
     nthR (f_tensor_det2 p0 p1 p2 p3 p4) 0 <> 0 ->
-    is_jacobian 5 5 (fun p => f_pk1_from_pk22_l p [q0; q1; q2; q3; q4; q5; q6; q7; q8; q9; q10; q11; q12; q13; q14; q15; q16; q17; q18; q19]) (fun p => D_pk1_from_pk22_l p [q0; q1; q2; q3; q4; q5; q6; q7; q8; q9; q10; q11; q12; q13; q14; q15; q16; q17; q18; q19]) [p0; p1; p2; p3; p4].
+    is_jacobian 5 5 (fun p => f_pk1_from_pk22_l p [q0; q1; q2; q3; q4; q5; q6; q7; q8; q9; q10; q11; q12; q13; q14; q15; q16; q17; q18; q19; p0; p1; p2; p3; p4]) (fun p => D_pk1_from_pk22_l p [q0; q1; q2; q3; q4; q5; q6; q7; q8; q9; q10; q11; q12; q13; q14; q15; q16; q17; q18; q19; p0; p1; p2; p3; p4]) [p0; p1; p2; p3; p4].
 Definition pk1_from_pk2_stmt3 : Prop :=
   forall p0 p1 p2 p3 p4 p5 p6 p7 p8 q0 q1 q2 q3 q4 q5 q6 q7 q8 q9 q10 q11 q12 q13 q14 q15 q16 q17 q18 q19 q20 q21 q22 q23 q24 q25 q26 q27 q28 q29 q30 q31 q32 q33 q34 q35 q36 q37 q38 q39 q40 q41 : R,
     nthR (f_tensor_det3 p0 p1 p2 p3 p4 p5 p6 p7 p8) 0 <> 0 ->
-    is_jacobian 9 9 (fun p => f_pk1_from_pk23_l p [q0; q1; q2; q3; q4; q5; q6; q7; q8; q9; q10; q11; q12; q13; q14; q15; q16; q17; q18; q19; q20; q21; q22; q23; q24; q25; q26; q27; q28; q29; q30; q31; q32; q33; q34; q35; q36; q37; q38; q39; q40; q41]) (fun p => D_pk1_from_pk23_l p [q0; q1; q2; q3; q4; q5; q6; q7; q8; q9; q10; q11; q12; q13; q14; q15; q16; q17; q18; q19; q20; q21; q22; q23; q24; q25; q26; q27; q28; q29; q30; q31; q32; q33; q34; q35; q36; q37; q38; q39; q40; q41]) [p0; p1; p2; p3; p4; p5; p6; p7; p8].
+    is_jacobian 9 9 (fun p => f_pk1_from_pk23_l p [q0; q1; q2; q3; q4; q5; q6; q7; q8; q9; q10; q11; q12; q13; q14; q15; q16; q17; q18; q19; q20; q21; q22; q23; q24; q25; q26; q27; q28; q29; q30; q31; q32; q33; q34; q35; q36; q37; q38; q39; q40; q41; p0; p1; p2; p3; p4; p5; p6; p7; p8]) (fun p => D_pk1_from_pk23_l p [q0; q1; q2; q3; q4; q5; q6; q7; q8; q9; q10; q11; q12; q13; q14; q15; q16; q17; q18; q19; q20; q21; q22; q23; q24; q25; q26; q27; q28; q29; q30; q31; q32; q33; q34; q35; q36; q37; q38; q39; q40; q41; p0; p1; p2; p3; p4; p5; p6; p7; p8]) [p0; p1; p2; p3; p4; p5; p6; p7; p8].
 
 (* convertFirstPiolaKirchoffStressDerivativeToKirchhoffStressDerivative(dP, F0, s0) is the Jacobian at F0 of F |-> det(F) convertFirstPiolaKirchhoffStressToCauchyStress(P(F), F), P(F) = P(s0, F0) + X.(F - F0) (det F0 <> 0) *)
 Definition tau_from_pk1_stmt1 : Prop :=
